@@ -19,6 +19,9 @@ RULES = {
   (r"Indent=0\|", "F-paren-space: a function or subshell body starting with a nested subshell / arithmetic command on its own line is printed with a trailing blank and `))` vs `) )` that the next pass changes"),
  ],
  "C05": [
+  (r"lost on a line starting \"(own line after )?do time", "F-time-comment: a trailing (or own-line) comment after the header of a for/select loop under `time` (before do/{) is dropped, also when the `time` clause is the first command of a loop body"),
+  (r"moved on a line starting \"\+heredoc\"", "F-heredoc-comment: a trailing comment after a here-document operator followed by `&` is moved into a substitution inside the here-document body under SingleLine"),
+  (r"moved on a line starting \"case \$w\"", "F-heredoc-comment: a trailing comment after `esac <<EOF && cmd <<-EOF &` (two here-documents on the line of `esac`) is moved into the case item"),
   (r"lost on a line starting \"time ", "F-time-comment: a trailing comment on the line of a for/select header under `time` (before do/{) is dropped"),
   (r"lost on a line starting \"\+heredoc", "F-heredoc-comment: a trailing comment after a here-document operator is dropped when the statement is the operand of `time`, or the redirection follows `esac`, `]]`, `}` ..."),
   (r"moved on a line starting \"for w \+subst\"", "F-for-subst-comment: a comment after a for-loop word list whose item ends with a multi-line substitution is moved into that substitution"),
